@@ -73,12 +73,53 @@ def data_stores(pa):
     return [e for e in pa.events if e.kind == "store" and e.data.get("attr") == "data" and show(e.data["base"]) == "self"]
 
 
-def explore_process(ctx, inline=("_find_message_in_buffer", "_cleanup_beginning"), may_raise=False, max_while=2):
+_ROLES = {}
+
+
+def roles(p):
+    """The buffer's private helpers, identified by what they do rather than by name:
+       FIND   - the method that hands a prefix to IndiMessage.from_string,
+       RESYNC - the method that consults the known start tags and truncates the buffer,
+       DROP1  - the other method that calls RESYNC (drops one character first).
+    """
+    import ast as _ast
+    key = id(p)
+    if key in _ROLES:
+        return _ROLES[key]
+    B = buf_cls(p)
+    pub = {"process", "append", "__init__"}
+    cand = [fi for n, fi in B.methods.items() if n not in pub]
+
+    def calls_attr(fi, attr):
+        return any(isinstance(n, _ast.Call) and isinstance(n.func, _ast.Attribute) and n.func.attr == attr for n in _ast.walk(fi.node))
+
+    def mentions_self(fi, attr):
+        return any(isinstance(n, _ast.Attribute) and n.attr == attr and isinstance(n.value, _ast.Name) and n.value.id == "self" for n in _ast.walk(fi.node))
+
+    def stores_data(fi):
+        return any(isinstance(n, _ast.Attribute) and n.attr == "data" and isinstance(n.ctx, _ast.Store) and isinstance(n.value, _ast.Name) and n.value.id == "self" for n in _ast.walk(fi.node))
+
+    find = [fi for fi in cand if calls_attr(fi, "from_string")]
+    resync = [fi for fi in cand if mentions_self(fi, "allowed_tags") and stores_data(fi)]
+    if len(find) != 1 or len(resync) != 1:
+        raise Undecided(f"buffer helper roles not identified (from_string callers: {[f.name for f in find]}, resynchronisers: {[f.name for f in resync]})")
+    drop = [fi for fi in cand if fi is not resync[0] and fi is not find[0] and calls_attr(fi, resync[0].name) and stores_data(fi)]
+    if len(drop) != 1:
+        raise Undecided(f"single-character drop helper not identified ({[f.name for f in drop]})")
+    r = {"FIND": find[0].name, "RESYNC": resync[0].name, "DROP1": drop[0].name}
+    _ROLES[key] = r
+    return r
+
+
+def explore_process(ctx, inline=("FIND", "DROP1"), may_raise=False, max_while=2):
     p = ctx.p
     B = buf_cls(p)
     f = B.find_method("process")
     if f is None:
         raise Undecided("Buffer.process not found")
+
+    R = roles(p)
+    inline = tuple(R.get(n, n) for n in inline)
 
     def pol(fi, node):
         return fi.cls is B and fi.name in inline
@@ -217,9 +258,9 @@ def check_find_progress(ctx, rule):
     """Inner loop of _find_message_in_buffer: the scan position strictly increases per iteration."""
     p = ctx.p
     B = buf_cls(p)
-    f = B.find_method("_find_message_in_buffer")
+    f = B.find_method(roles(p)["FIND"])
     if f is None:
-        raise Undecided("_find_message_in_buffer not found")
+        raise Undecided("the buffer's find helper was not found")
     def raiser(ev):
         callee = ev.data.get("callee")
         if isinstance(callee, Foreign) and callee.dotted.endswith(".fromstring"):
@@ -379,9 +420,9 @@ def check_consume(ctx, rule):
                 ctx.violated(rule, f.short, "the message is handed to the consumer before it is removed from the buffer: a raising consumer causes re-delivery", fi=f, text="consume-after-callback")
                 bad = True
             # nothing modifies the buffer between the scan and the truncation
-            findcall = [e for e in evs if e.kind == "call" and is_call(e.data["term"], method="_find_message_in_buffer")]
+            findcall = [e for e in evs if e.kind == "call" and is_call(e.data["term"], method=roles(ctx.p)["FIND"])]
             if findcall:
-                between = [e for e in evs if findcall[0].idx < e.idx < consume[0].idx and ((e.kind == "store" and e.data.get("attr") in ("data", "buffer")) or (e.kind == "call" and any(is_call(e.data["term"], method=m) for m in ("_cleanup_buffer", "_cleanup_beginning", "append", "write"))))]
+                between = [e for e in evs if findcall[0].idx < e.idx < consume[0].idx and ((e.kind == "store" and e.data.get("attr") in ("data", "buffer")) or (e.kind == "call" and any(is_call(e.data["term"], method=m) for m in (roles(ctx.p)["RESYNC"], roles(ctx.p)["DROP1"], "append", "write"))))]
                 if between:
                     ctx.violated(rule, f.short, "the buffer is modified between locating the message and removing it", fi=f, text="modified-between")
                     bad = True
@@ -407,7 +448,7 @@ def check_discard(ctx, rule):
     """Provenance of every buffer truncation outside the consumption."""
     p = ctx.p
     B = buf_cls(p)
-    f = B.find_method("_cleanup_buffer")
+    f = B.find_method(roles(p)["RESYNC"])
     paths = run_method(p, f, opts={"max_for": 2})
     ctx.paths_enumerated += len(paths)
     bad = False
@@ -479,28 +520,28 @@ def check_discard(ctx, rule):
     elif not bad:
         ctx.holds(rule, f.short, f"{n} truncations over {len(paths)} paths: earliest known tag, else last '<', else discard-all only when neither exists", fi=f)
     # _cleanup_beginning: constant 1, then resynchronise; called only under the threshold guard
-    g = B.find_method("_cleanup_beginning")
+    g = B.find_method(roles(p)["DROP1"])
     paths = run_method(p, g)
     ok = True
     for pa in paths:
         st = data_stores(pa)
         if len(st) != 1 or classify_store(pa.interp, st[0].data["value"]) != ("suffix", 1):
             ok = False
-        if not any(is_call(e.data["term"], method="_cleanup_buffer") and e.idx > st[0].idx for e in pa.events if e.kind == "call") if st else True:
+        if not any(is_call(e.data["term"], method=roles(p)["RESYNC"]) and e.idx > st[0].idx for e in pa.events if e.kind == "call") if st else True:
             ok = False
     ctx.check(ok, rule, g.short, "drops exactly one character, then resynchronises", "_cleanup_beginning does not drop exactly one character and resynchronise", fi=g, text="cleanup-beginning")
-    fp, ppaths = explore_process(ctx, inline=("_find_message_in_buffer",))
+    fp, ppaths = explore_process(ctx, inline=("FIND",))
     okc = True
     ncall = 0
     for pa in ppaths:
         for e in pa.events:
-            if e.kind == "call" and is_call(e.data["term"], method="_cleanup_beginning"):
+            if e.kind == "call" and is_call(e.data["term"], method=roles(p)["DROP1"]):
                 ncall += 1
                 guards = [a for a in pa.assumes() if a.idx < e.idx and a.data["truth"] and isinstance(a.data["cond"], Term) and a.data["cond"].op == "cmp" and "max_buffer_size_before_frontal_cleanup" in show(a.data["cond"]) and a.data["cond"].args[0] in (">", ">=")]
                 msg_none = True
                 if not guards or threshold_none_path(pa) is True:
                     okc = False
-    callers = [fi for fi in p.functions if fi is not fp and any(isinstance(n_, __import__("ast").Call) and isinstance(n_.func, __import__("ast").Attribute) and n_.func.attr == "_cleanup_beginning" for n_ in __import__("ast").walk(fi.node))]
+    callers = [fi for fi in p.functions if fi is not fp and any(isinstance(n_, __import__("ast").Call) and isinstance(n_.func, __import__("ast").Attribute) and n_.func.attr == roles(p)["DROP1"] for n_ in __import__("ast").walk(fi.node))]
     ctx.check(okc and ncall > 0 and not callers, rule, f"{fp.short} -> _cleanup_beginning", "called only when no message was found and length > enabled threshold", "_cleanup_beginning (which drops a character blindly) is reachable without 'length > threshold' having been established, or from elsewhere", fi=fp, text="cleanup-beginning-guard")
 
 
